@@ -1,14 +1,55 @@
 (* ClenModel.v — Content-Length interpretation as it exists in /repo:
      src/http/ContentLengthInterpreter.cc  findDigits / goodSuffix / checkValue / checkList / checkField
-     src/HttpHeaderTools.cc                httpHeaderParseOffset  (TokModel.parse_offset: strtoll semantics)
+     src/HttpHeaderTools.cc                httpHeaderParseOffset  (strtoll semantics)
      src/StrList.cc                        strListGetItem (the list iterator checkList uses)
      src/HttpHeader.cc                     HttpHeader::parse (line loop, HttpHeaderEntry::parse, the
                                            Content-Length / Transfer-Encoding branches after the loop),
                                            putInt64 / getInt64 as used for the sanitised value.
    Executable definitions only.  Character sets come from the regenerated tables (CharSets_gen). *)
-Require Import SquidV.Bytes SquidV.TokModel.
+Require Import SquidV.Bytes.
 Require Import SquidV.gen.CharSets_gen.
 Local Open Scope N_scope.
+
+(* ---------------- httpHeaderParseOffset = strtoll(start, &end, 10) + checks ----------------
+   (self-contained: glibc strtoll in the C locale on the bytes before the first NUL) *)
+Definition c_isdigit (c : N) : bool := (48 <=? c) && (c <=? 57).
+Definition c_isupper (c : N) : bool := (65 <=? c) && (c <=? 90).
+Definition c_isspace (c : N) : bool := (c =? 32) || ((9 <=? c) && (c <=? 13)).   (* xisspace *)
+Fixpoint c_str (l : bytes) : bytes :=
+  match l with [] => [] | c :: r => if c =? 0 then [] else c :: c_str r end.
+Fixpoint skip_ws (l : bytes) (n : N) : bytes * N :=
+  match l with
+  | c :: r => if c_isspace c then skip_ws r (N.succ n) else (l, n)
+  | [] => (l, n)
+  end.
+(* value of a string of decimal digits *)
+Definition dec_val (ds : bytes) : Z := fold_left (fun a c => a * 10 + (Z.of_N c - 48))%Z ds 0%Z.
+Definition two63 : Z := 9223372036854775808.
+
+(* (value, bytes consumed, ERANGE); consumed = 0 when there are no digits (end == start) *)
+Definition c_strtoll (s : bytes) : Z * N * bool :=
+  let '(l1, n1) := skip_ws (c_str s) 0 in
+  let '(neg, l2, n2) :=
+    match l1 with
+    | c :: r => if c =? 45 then (true, r, N.succ n1) else if c =? 43 then (false, r, N.succ n1)
+                else (false, l1, n1)
+    | [] => (false, l1, n1)
+    end in
+  let ds := fst (span c_isdigit l2) in
+  match ds with
+  | [] => (0%Z, 0, false)
+  | _ =>
+    let v := dec_val ds in
+    if neg then (if (v >? two63)%Z then ((- two63)%Z, n2 + lenN ds, true) else ((- v)%Z, n2 + lenN ds, false))
+    else (if (v >? two63 - 1)%Z then ((two63 - 1)%Z, n2 + lenN ds, true) else (v, n2 + lenN ds, false))
+  end.
+
+(* httpHeaderParseOffset(start, &value, &end): Some (value, end - start) *)
+Definition parse_offset (s : bytes) : option (Z * N) :=
+  let '(v, n, erange) := c_strtoll s in
+  if erange then None            (* errno == ERANGE with LLONG_MIN / LLONG_MAX *)
+  else if n =? 0 then None       (* start == end *)
+  else Some (v, n).
 
 (* Config.onoff.relaxed_header_parser: 1 on, 0 off, -1 warn; the code only tests it for (non)zero *)
 Definition relaxed_of (mode : Z) : bool := negb (mode =? 0)%Z.
@@ -87,7 +128,7 @@ Fixpoint split_items (ph : sphase) (acc : bytes) (l : bytes) : list bytes :=
     end
   end.
 (* "rtrim": while (len > 0 && xisspace(item[len-1])) --len *)
-Definition rtrim (l : bytes) : bytes := rev (snd (span is_c_space (rev l))).
+Definition rtrim (l : bytes) : bytes := rev (snd (span c_isspace (rev l))).
 
 (* the while loop of checkList over the raw items: strListGetItem returns 0 — and the loop ends —
    at the first item that is empty after rtrim, not only at the end of the string *)
@@ -104,9 +145,9 @@ Fixpoint check_items (relaxed : bool) (st : clst) (items : list bytes) : clst :=
 
 Definition check_list (relaxed : bool) (st : clst) (list : bytes) : bool * clst :=
   if negb relaxed then (false, set_bad st)
-  else (false, check_items relaxed (set_san st) (split_items Lead [] (c_string list))).
+  else (false, check_items relaxed (set_san st) (split_items Lead [] (c_str list))).
 
-Definition has_comma (l : bytes) : bool := existsb (N.eqb 44) (c_string l).   (* String::pos(',') *)
+Definition has_comma (l : bytes) : bool := existsb (N.eqb 44) (c_str l).   (* String::pos(',') *)
 
 Definition check_field (relaxed : bool) (st : clst) (v : bytes) : bool * clst :=
   if cl_sawBad st then (false, st)
@@ -126,7 +167,7 @@ Definition hid_eqb (a b : hid) : bool :=
   match a, b with HCL, HCL | HTE, HTE | HOther, HOther => true | _, _ => false end.
 Record entry := { e_id : hid; e_value : bytes }.
 
-Definition lower (c : N) : N := if is_upper c then c + 32 else c.
+Definition lower (c : N) : N := if c_isupper c then c + 32 else c.
 Definition ci_eqb (a b : bytes) : bool := list_eqb (map lower a) (map lower b).
 Definition name_content_length : bytes := [67;111;110;116;101;110;116;45;76;101;110;103;116;104].
 Definition name_transfer_encoding : bytes :=
@@ -139,7 +180,7 @@ Definition lookup_id (name : bytes) : hid :=
 
 Definition last_is (p : N -> bool) (l : bytes) : bool :=
   match rev l with c :: _ => p c | [] => false end.
-Definition ltrim (l : bytes) : bytes := snd (span is_c_space l).
+Definition ltrim (l : bytes) : bytes := snd (span c_isspace l).
 
 (* HttpHeaderEntry::parse(field_start, field_end, msgType); req = (msgType == hoRequest),
    the other owner modelled is hoReply *)
@@ -151,7 +192,7 @@ Definition entry_parse (relaxed req : bool) (field : bytes) : option entry :=
     if lenN name =? 0 then None
     else if 65534 <? lenN name then None
     else
-      let name' := if last_is is_c_space name then (if req then [] else rtrim name) else name in
+      let name' := if last_is c_isspace name then (if req then [] else rtrim name) else name in
       match name' with
       | [] => None
       | _ =>
@@ -261,7 +302,7 @@ Record hres := { h_entries : list entry; h_conflicting : bool; h_teUnsupported :
 (* getList(TRANSFER_ENCODING): values joined with ", " (an empty accumulated string gets no separator) *)
 Definition te_joined (es : list entry) : bytes :=
   fold_left (fun s e => match e_id e with
-                        | HTE => (match s with [] => [] | _ => s ++ [44; 32] end) ++ c_string (e_value e)
+                        | HTE => (match s with [] => [] | _ => s ++ [44; 32] end) ++ c_str (e_value e)
                         | _ => s end) es [].
 
 (* the branches after the loop *)
